@@ -3,6 +3,7 @@ from __future__ import annotations
 import random
 import re
 import time
+from math import ceil
 from typing import TYPE_CHECKING
 
 from repid.data import PrioritiesT
@@ -125,9 +126,9 @@ def wait_timestamp(params: ParametersT | None = None) -> int | None:
         return None
 
     if params.delay.next_execution_time is not None:
-        return int(params.delay.next_execution_time.timestamp())
+        return ceil(params.delay.next_execution_time.timestamp())
 
     if (computed := params.compute_next_execution_time) is not None:
-        return int(computed.timestamp())
+        return ceil(computed.timestamp())
 
     return None
